@@ -3181,6 +3181,9 @@ func (d *Document) serializeStyles() error {
 		return nil
 	}
 
+	// 表格引用的样式（w:tblStyle）必须在样式表中有定义
+	d.defineReferencedTableStyles()
+
 	// 创建样式结构，包含完整的命名空间
 	type stylesXML struct {
 		XMLName     xml.Name       `xml:"w:styles"`
@@ -3228,6 +3231,48 @@ func (d *Document) serializeStyles() error {
 
 	Debugf("样式序列化完成")
 	return nil
+}
+
+// defineReferencedTableStyles 为正文表格（含嵌套表格）通过 ApplyTableStyle / CreateCustomTableStyle
+// 引用、但样式管理器中没有的样式ID注册一个表格类型的样式。Table 不持有文档引用，调用当时无法注册，
+// 所以在生成 styles.xml 之前补上，否则 w:tblStyle 指向一个哪里都没有定义的ID。
+func (d *Document) defineReferencedTableStyles() {
+	var visit func(t *Table)
+	visit = func(t *Table) {
+		if t.Properties != nil && t.Properties.TableStyle != nil {
+			ref := t.Properties.TableStyle
+			if ref.Val != "" && !d.styleManager.StyleExists(ref.Val) {
+				name := ref.Name
+				if name == "" {
+					name = ref.Val
+				}
+				// 基于默认表格样式 Normal Table（a1）；TableGrid 模板基于带边框的 Table Grid（ab）
+				basedOn := "a1"
+				if ref.Val == string(TableStyleTemplateGrid) && d.styleManager.StyleExists("ab") {
+					basedOn = "ab"
+				}
+				if !d.styleManager.StyleExists(basedOn) {
+					basedOn = ""
+				}
+				d.styleManager.CreateCustomStyle(ref.Val, name, style.StyleTypeTable, basedOn)
+			}
+		}
+		for r := range t.Rows {
+			for c := range t.Rows[r].Cells {
+				for n := range t.Rows[r].Cells[c].Tables {
+					visit(&t.Rows[r].Cells[c].Tables[n])
+				}
+			}
+		}
+	}
+	if d.Body == nil {
+		return
+	}
+	for _, element := range d.Body.Elements {
+		if t, ok := element.(*Table); ok {
+			visit(t)
+		}
+	}
 }
 
 // parseContentTypes 解析内容类型文件
